@@ -51,6 +51,7 @@ def check(ctx, report):
     fr = it.new_frame(None, cls.module, recv=ClassV(cls), defcls=cls)
     fr.quiet = True
     ltm, eqm = {}, {}
+    it.dunder_cmp = True
     cons = cls.construct + '.__lt__'
     for a in members:
         for b in members:
